@@ -55,8 +55,8 @@ claim('C20', 'proof', K1 + '; ' + K2 + '; ' + GR,
       'prel31; index entry classification and byte-code unpacking (all models, unbounded word loop); byte-code disassembler: every 1- and 2-byte instruction enumerated exhaustively against the EHABI 9.3 table; attribute value kinds per tag (ARM, RISC-V) incl. number lists by loop invariant; subsection and sub-subsection walkers by displacement with interference at yields',
       'ULEB operand of opcode 0xb2 and instruction sequences are bounded stand-ins (reported separately); _make_attributes walker and mnemonic text have no independent oracle')
 claim('C04', 'proof', K1 + '; ' + K2 + '; ' + BD,
-      'K2: unit headers (v2-v5, every unit type), abbreviation declarations incl. implicit_const and the full form table per (format, address size, version) equal the DWARF layouts over the complete configuration space. K1 (all inputs): the per-unit entry cache (get_top_DIE, _get_cached_DIE: sorted, duplicate free, entry i is the entry at offset i), lookups by offset (CompileUnit.get_DIE_from_refaddr returns the entry at the designated offset, rejects offsets outside the unit), children iteration proved against the structural tree specification (k-th child follows the whole subtree of the previous; the null entry becomes the parent\'s terminator; DW_AT_sibling shortcuts in unit-relative and section-relative forms give the same offsets on well-formed input)',
-      'the parse of one entry (DIE.__init__/_parse_DIE/_resolve_indirect/_translate_attr_value) is an ASSUMED contract at the cache\'s call sites and is covered only by the bounded differential (generated sections: 1-3 units of mixed parameters, every form valid for the version incl. nested DW_FORM_indirect, trees of depth <= 4), as are _iter_DIE_subtree, get_parent and DWARFInfo.get_DIE_from_refaddr/get_DIE_by_sig8; termination of the recursive children walk not proved; Sem of construct node kinds assumed')
+      'K2: unit headers (v2-v5, every unit type), abbreviation declarations incl. implicit_const and the full form table per (format, address size, version) equal the DWARF layouts over the complete configuration space. K1 (all inputs): the parse of one entry (DIE._parse_DIE by step refinement: code, null entries, every attribute adjacent to the previous with name, offset, final form, raw value, indirection length; DW_FORM_indirect chains of any depth) over abstract form parsers; value translation (strings, flags, index forms with the unit\'s entry width and bases); unit header parse; the per-unit entry cache (sorted, duplicate free, exact), lookups by offset (rejects offsets outside the unit), children iteration proved against the structural tree specification (DW_AT_sibling shortcuts in unit-relative and section-relative forms give the same offsets on well-formed input)',
+      'DIE.__init__ enters the cache contracts as an ASSUMED die_at predicate (identified with _parse_DIE\'s contract on paper); abbreviation table lookups assumed (layout K2); the resolved attribute VALUE, _iter_DIE_subtree, get_parent, DWARFInfo.get_DIE_from_refaddr/get_DIE_by_sig8 are covered only by the bounded differential (generated sections: 1-3 units of mixed parameters, every form incl. nested DW_FORM_indirect, trees of depth <= 4); termination of the recursive children walk not proved; Sem of construct node kinds assumed')
 claim('C05', 'proof', K1 + '; ' + K2 + '; ' + BD,
       'K1 (all inputs): step refinement of LineProgram._decode_line_program against the DWARF 6.2.5 state machine: after every iteration each register, the emitted row and the next instruction offset are what the specification prescribes (special, standard incl. unknown standard opcodes skipped by standard_opcode_lengths, extended opcodes, VLIW op_index); K2: line program header v2-v5 incl. entry formats, file entries, form table',
       'header/extent handling in DWARFInfo._parse_line_program_at_offset and the v5 directory/file tables are covered by the bounded differential only; the fold over the whole program follows from the step lemma by induction on the loop (composition argument in DESIGN 4, not machine checked); one recorded known finding (is_stmt of the end_sequence row)')
